@@ -28,6 +28,24 @@ pub mod stream {
             self.lock()
         }
     }
+    impl AsLockedWrite for std::io::StdoutLock<'static> {
+        type Write<'w> = &'w mut Self;
+        fn as_locked_write(&mut self) -> Self::Write<'_> {
+            self
+        }
+    }
+    impl AsLockedWrite for std::io::Stderr {
+        type Write<'w> = std::io::StderrLock<'w>;
+        fn as_locked_write(&mut self) -> Self::Write<'_> {
+            self.lock()
+        }
+    }
+    impl AsLockedWrite for std::io::StderrLock<'static> {
+        type Write<'w> = &'w mut Self;
+        fn as_locked_write(&mut self) -> Self::Write<'_> {
+            self
+        }
+    }
     impl AsLockedWrite for Vec<u8> {
         type Write<'w> = &'w mut Self;
         fn as_locked_write(&mut self) -> Self::Write<'_> {
